@@ -1278,4 +1278,209 @@ theorem ulpF32_le (x : Rat) (h : pow2 (-126) ≤ |x|) : ulpF32 x ≤ |x| * pow2 
   · rw [max_eq_left hc, ← pow2_eq_zpow]; exact hlow
 
 
+/-! ## Part V — the `"Exposure time (ms)"` key -/
+
+/-! ### float64 rounding (the `"Exposure time (ms)"` key) -/
+
+theorem ulpF64_pos (x : Rat) : 0 < ulpF64 x := pow2_pos _
+
+theorem roundF64_zero : roundF64 0 = 0 := by unfold roundF64; rw [if_pos rfl]
+
+/-- Rounding error of one double operation: at most half a unit in the last place. -/
+theorem roundF64_error (x : Rat) : |roundF64 x - x| ≤ ulpF64 x / 2 := by
+  unfold roundF64
+  by_cases hx : x = 0
+  · rw [if_pos hx, hx]; simp; have := ulpF64_pos 0; linarith
+  · rw [if_neg hx]
+    have hu := ulpF64_pos x
+    have h := (roundHalfEven_spec (x / ulpF64 x)).1
+    have e : (roundHalfEven (x / ulpF64 x) : Rat) * ulpF64 x - x =
+        ((roundHalfEven (x / ulpF64 x) : Rat) - x / ulpF64 x) * ulpF64 x := by
+      field_simp
+    rw [e, abs_mul, abs_of_pos hu]
+    calc |(roundHalfEven (x / ulpF64 x) : Rat) - x / ulpF64 x| * ulpF64 x ≤ 1 / 2 * ulpF64 x :=
+          mul_le_mul_of_nonneg_right h (le_of_lt hu)
+      _ = ulpF64 x / 2 := by ring
+
+theorem ulpF64_le (x : Rat) (h : pow2 (-1022) ≤ |x|) : ulpF64 x ≤ |x| * pow2 (-52) := by
+  have hx : x ≠ 0 := by
+    intro e; rw [e, abs_zero] at h; exact absurd h (not_le.mpr (pow2_pos _))
+  have hlow := pow2_ilog2_le x hx
+  unfold ulpF64
+  rw [pow2_eq_zpow, pow2_eq_zpow]
+  rw [zpow_sub₀ (by norm_num), zpow_neg, div_eq_mul_inv]
+  apply mul_le_mul_of_nonneg_right _ (by positivity)
+  rcases le_total (ilog2 x) (-1022) with hc | hc
+  · rw [max_eq_right hc, ← pow2_eq_zpow]; exact h
+  · rw [max_eq_left hc, ← pow2_eq_zpow]; exact hlow
+
+/-- `u = 2^-53`, the unit round-off of float64. -/
+def u64 : Rat := 1 / 9007199254740992
+
+theorem pow2_m53 : pow2 (-52) / 2 = u64 := by
+  rw [pow2_eq_zpow]; unfold u64; norm_num [zpow_neg]
+
+theorem pow2_m1022_le : pow2 (-1022) ≤ 1 / 1073741824 := by
+  rw [pow2_eq_zpow]
+  have : (2 : Rat) ^ (-1022 : Int) ≤ (2 : Rat) ^ (-30 : Int) := zpow_le_zpow_right₀ (by norm_num) (by norm_num)
+  have h2 : (2 : Rat) ^ (-30 : Int) = 1 / 1073741824 := by norm_num [zpow_neg]
+  rw [h2] at this
+  exact this
+
+/-- float64 away from the subnormals: relative rounding error at most `2^-53`. -/
+theorem f64_relative_error (x : Rat) (h : 1 / 1073741824 ≤ |x|) : |roundF64 x - x| ≤ |x| * u64 := by
+  have h1 := roundF64_error x
+  have h2 := ulpF64_le x (le_trans pow2_m1022_le h)
+  rw [← pow2_m53]
+  calc |roundF64 x - x| ≤ ulpF64 x / 2 := h1
+    _ ≤ |x| * pow2 (-52) / 2 := by linarith
+    _ = |x| * (pow2 (-52) / 2) := by ring
+
+/-- Integers below `2^53` in magnitude are doubles: `np.int64 → float64` is exact. -/
+theorem roundF64_int_exact (n : Int) (h : n.natAbs < 2 ^ 53) : roundF64 (n : Rat) = (n : Rat) := by
+  unfold roundF64
+  by_cases h0 : (n : Rat) = 0
+  · rw [if_pos h0, h0]
+  · rw [if_neg h0]
+    have hn : n ≠ 0 := by intro e; apply h0; rw [e]; rfl
+    have hl : n.natAbs.log2 < 53 := (Nat.log2_lt (by omega)).mpr h
+    have hi := ilog2_int_le n
+    have hk : max (ilog2 (n : Rat)) (-1022) - 52 ≤ 0 := by omega
+    unfold ulpF64
+    generalize max (ilog2 (n : Rat)) (-1022) - 52 = k at hk
+    obtain ⟨m, hm⟩ : ∃ m : Nat, k = -(m : Int) := ⟨(-k).toNat, by omega⟩
+    subst hm
+    rw [pow2_eq_zpow, zpow_neg, zpow_natCast]
+    have e : (n : Rat) / ((2 : Rat) ^ m)⁻¹ = ((n * 2 ^ m : Int) : Rat) := by
+      push_cast; field_simp
+    rw [e, roundHalfEven_int]
+    push_cast
+    field_simp
+
+/-- A value closer than one half to an integer rounds to it. -/
+theorem roundHalfEven_of_close (y : Rat) (n : Int) (h : |y - n| < 1 / 2) : roundHalfEven y = n := by
+  have h1 := (roundHalfEven_spec y).1
+  have a1 := abs_le.mp h1
+  have a2 := abs_lt.mp h
+  have lo : ((roundHalfEven y : Int) : Rat) - n < 1 := by linarith [a1.2, a2.1]
+  have hi : -1 < ((roundHalfEven y : Int) : Rat) - n := by linarith [a1.1, a2.2]
+  have lo' : roundHalfEven y - n < 1 := by exact_mod_cast lo
+  have hi' : -1 < roundHalfEven y - n := by exact_mod_cast hi
+  omega
+
+/-- The double `1e-6` is within `2^-53` (relative) of `10^-6`. -/
+theorem c1em6_close : |c1em6 * 1000000 - 1| ≤ u64 := by
+  have h := f64_relative_error (1 / 1000000) (by rw [abs_of_pos (by norm_num)]; norm_num)
+  rw [abs_of_pos (by norm_num : (0 : Rat) < 1 / 1000000)] at h
+  have e : c1em6 * 1000000 - 1 = (roundF64 (1 / 1000000) - 1 / 1000000) * 1000000 := by
+    unfold c1em6; ring
+  rw [e, abs_mul, abs_of_pos (by norm_num : (0 : Rat) < 1000000)]
+  calc |roundF64 (1 / 1000000) - 1 / 1000000| * 1000000 ≤ (1 / 1000000 * u64) * 1000000 :=
+        mul_le_mul_of_nonneg_right h (by norm_num)
+    _ = u64 := by ring
+
+
+/-- The arithmetic heart of the exposure round trip, over the rationals: `c ≈ 10^-6`, `y ≈ e·c`, `z ≈ 10^6·y`, each
+    within the unit round-off, and `|e| ≤ 10^15`: then `z` is closer than one half to `e`. -/
+theorem exposure_chain (e c y z : Rat) (hA1 : 1 ≤ |e|) (hA2 : |e| ≤ 1000000000000000)
+    (hc : |c * 1000000 - 1| ≤ u64)
+    (hy : 1 / 1073741824 ≤ |e * c| → |y - e * c| ≤ |e * c| * u64)
+    (hz : 1 / 1073741824 ≤ |1000000 * y| → |z - 1000000 * y| ≤ |1000000 * y| * u64) :
+    |z - e| < 1 / 2 := by
+  unfold u64 at *
+  have h1 : |e * c * 1000000 - e| ≤ |e| * (1 / 9007199254740992) := by
+    rw [show e * c * 1000000 - e = e * (c * 1000000 - 1) by ring, abs_mul]
+    exact mul_le_mul_of_nonneg_left hc (abs_nonneg e)
+  have hB : |e * c| * 1000000 = |e * c * 1000000| := by
+    rw [abs_mul (e * c) 1000000, abs_of_pos (by norm_num : (0 : Rat) < 1000000)]
+  have b1 := abs_sub_abs_le_abs_sub (e * c * 1000000) e
+  have b2 := abs_sub_abs_le_abs_sub e (e * c * 1000000)
+  rw [abs_sub_comm e (e * c * 1000000)] at b2
+  have hy' := hy (by linarith)
+  have h2 : |1000000 * y - e * c * 1000000| ≤ |e * c * 1000000| * (1 / 9007199254740992) := by
+    rw [show 1000000 * y - e * c * 1000000 = (y - e * c) * 1000000 by ring, abs_mul,
+      abs_of_pos (by norm_num : (0 : Rat) < 1000000), ← hB]
+    have := mul_le_mul_of_nonneg_right hy' (by norm_num : (0 : Rat) ≤ 1000000)
+    linarith
+  have c1 := abs_sub_abs_le_abs_sub (1000000 * y) (e * c * 1000000)
+  have c2 := abs_sub_abs_le_abs_sub (e * c * 1000000) (1000000 * y)
+  rw [abs_sub_comm (e * c * 1000000) (1000000 * y)] at c2
+  have hz' := hz (by linarith)
+  have t1 : |z - e| ≤ |z - 1000000 * y| + |1000000 * y - e * c * 1000000| + |e * c * 1000000 - e| := by
+    have := abs_add_three (z - 1000000 * y) (1000000 * y - e * c * 1000000) (e * c * 1000000 - e)
+    rw [show z - 1000000 * y + (1000000 * y - e * c * 1000000) + (e * c * 1000000 - e) = z - e by ring] at this
+    exact this
+  linarith
+
+/-- ns → `"Exposure time (ms)"` (float64) → ns is the identity for every exposure up to `10^15` ns (11.5 days). -/
+theorem exposure_roundtrip_core (e : Int) (h : e.natAbs ≤ 10 ^ 15) : exposureNs (exposureMs e) = e := by
+  by_cases he : e = 0
+  · subst he
+    unfold exposureNs exposureMs
+    rw [Int.cast_zero, roundF64_zero, zero_mul, roundF64_zero, mul_zero, roundF64_zero]
+    exact roundHalfEven_int 0
+  · have h53 : e.natAbs < 2 ^ 53 := lt_of_le_of_lt h (by norm_num)
+    unfold exposureNs exposureMs
+    rw [roundF64_int_exact e h53]
+    apply roundHalfEven_of_close
+    have hA1 : 1 ≤ |(e : Rat)| := by
+      have : (1 : Int) ≤ |e| := Int.one_le_abs he
+      exact_mod_cast this
+    have hA2 : |(e : Rat)| ≤ 1000000000000000 := by
+      have : |e| ≤ (1000000000000000 : Int) := by
+        rw [Int.abs_eq_natAbs]; exact_mod_cast h
+      exact_mod_cast this
+    exact exposure_chain (e : Rat) c1em6 _ _ hA1 hA2 c1em6_close
+      (fun hn => f64_relative_error _ hn) (fun hn => f64_relative_error _ hn)
+
+
+/-- The millisecond value written is the exposure to a relative `2^-51` (two double operations). -/
+theorem exposure_ms_close_core (e : Int) (h : e.natAbs < 2 ^ 53) :
+    |exposureMs e * 1000000 - e| ≤ |(e : Rat)| * (1 / 2251799813685248) := by
+  by_cases he : e = 0
+  · subst he
+    unfold exposureMs
+    rw [Int.cast_zero, roundF64_zero, zero_mul, roundF64_zero]
+    norm_num
+  · unfold exposureMs
+    rw [roundF64_int_exact e h]
+    have hA1 : 1 ≤ |(e : Rat)| := by
+      have : (1 : Int) ≤ |e| := Int.one_le_abs he
+      exact_mod_cast this
+    have hc := c1em6_close
+    generalize c1em6 = c at hc ⊢
+    generalize hE : (e : Rat) = E at hA1 ⊢
+    unfold u64 at hc
+    have h1 : |E * c * 1000000 - E| ≤ |E| * (1 / 9007199254740992) := by
+      rw [show E * c * 1000000 - E = E * (c * 1000000 - 1) by ring, abs_mul]
+      exact mul_le_mul_of_nonneg_left hc (abs_nonneg E)
+    have hB : |E * c| * 1000000 = |E * c * 1000000| := by
+      rw [abs_mul (E * c) 1000000, abs_of_pos (by norm_num : (0 : Rat) < 1000000)]
+    have b1 := abs_sub_abs_le_abs_sub (E * c * 1000000) E
+    have b2 := abs_sub_abs_le_abs_sub E (E * c * 1000000)
+    rw [abs_sub_comm E (E * c * 1000000)] at b2
+    have hy' := f64_relative_error (E * c) (by linarith)
+    unfold u64 at hy'
+    have h2 : |roundF64 (E * c) * 1000000 - E * c * 1000000| ≤ |E * c * 1000000| * (1 / 9007199254740992) := by
+      rw [show roundF64 (E * c) * 1000000 - E * c * 1000000 = (roundF64 (E * c) - E * c) * 1000000 by ring, abs_mul,
+        abs_of_pos (by norm_num : (0 : Rat) < 1000000), ← hB]
+      have := mul_le_mul_of_nonneg_right hy' (by norm_num : (0 : Rat) ≤ 1000000)
+      linarith
+    have t1 : |roundF64 (E * c) * 1000000 - E| ≤
+        |roundF64 (E * c) * 1000000 - E * c * 1000000| + |E * c * 1000000 - E| := by
+      have := abs_add_le (roundF64 (E * c) * 1000000 - E * c * 1000000) (E * c * 1000000 - E)
+      rw [show roundF64 (E * c) * 1000000 - E * c * 1000000 + (E * c * 1000000 - E)
+        = roundF64 (E * c) * 1000000 - E by ring] at this
+      exact this
+    linarith
+
+/-- Reading back through the float key is reading back the integer, when every exposure is at most `10^15` ns. -/
+theorem readBackF_eq {α} (out : List (OutPage α)) (h : ∀ o ∈ out, o.exposure.natAbs ≤ 10 ^ 15) :
+    readBackF out = readBack out := by
+  unfold readBackF readBack
+  congr 1
+  apply List.map_congr_left
+  intro o ho
+  rw [exposure_roundtrip_core o.exposure (h o ho)]
+
 end Verif.C18
